@@ -113,13 +113,15 @@ Proof.
 Qed.
 
 (* the targets of the correspondence are d-dimensional when their parameter vectors have length d *)
-Definition wf_target (t : target) (d : nat) : Prop :=
+Fixpoint wf_target (t : target) (d : nat) : Prop :=
   match t with
   | TGauss p => length p = d
   | TQuartic => True
   | TSplit pl pr => length pl = d /\ length pr = d
   | TQuad P => length P = d /\ Forall (fun row => length row = d) P
   | TBox p _ _ => length p = d
+  | TLin b t' => length b = d /\ wf_target t' d
+  | TShift _ t' => wf_target t' d
   end.
 
 Lemma vmul_len : forall x y : list Qc, length x = length y -> length (vmul x y) = length x.
@@ -136,7 +138,7 @@ Proof. apply map_length. Qed.
 
 Theorem wf_target_dim t d : wf_target t d -> target_dim t d.
 Proof.
-  intros Hw x Hx. destruct t as [p | | pl pr | P | p b bad]; cbn in *.
+  induction t as [p | | pl pr | P | p b bad | b t IH | c t IH]; intros Hw x Hx; cbn in *.
   - rewrite qvneg_len, vmul_len; congruence.
   - rewrite qvneg_len, vmul_len; [exact Hx | rewrite vmul_len; reflexivity].
   - destruct Hw as [H1 H2]. rewrite qvneg_len, vmul_len; rewrite ?vside_len; congruence.
@@ -147,4 +149,6 @@ Proof.
     { rewrite Hx. eapply mattvec_length; eauto. }
     rewrite vadd_length; congruence.
   - rewrite qvneg_len, vmul_len; congruence.
+  - destruct Hw as [H1 H2]. unfold qvadd. rewrite vadd_length; [apply (IH H2 x Hx) | rewrite (IH H2 x Hx); congruence].
+  - apply (IH Hw x Hx).
 Qed.
